@@ -171,19 +171,42 @@ func c05Oracle(c c05Case) ev.Verdict {
 		runs = []run{{"both", hexs(opc[:]), hexs(c.OP)}, {"op-only", "", hexs(c.OP)}}
 	}
 	var outs []c05Out
+	type miss struct{ key, text string }
+	var misses [][]miss
 	for _, r := range runs {
 		got := c05Run(c, r.opc, r.opstr, snn)
 		outs = append(outs, got)
-		switch {
-		case !bytes.Equal(got.res, want.ResStar):
-			return fail("resstar:"+r.name, "[%s] RES* %x, a conformant AUSF expects XRES* %x (TS 33.501 A.4)", r.name, got.res, want.ResStar)
-		case !bytes.Equal(got.kamf, want.Kamf):
-			return fail("kamf:"+r.name, "[%s] K_AMF %x, network derives %x (K_AUSF→K_SEAF→K_AMF with SNN %q, SUPI %q, ABBA 0000)", r.name, got.kamf, want.Kamf, snnSpec, supiDigits)
-		case got.enc != want.KnasEnc:
-			return fail("knasenc:"+r.name, "[%s] K_NASenc %x, network derives %x (A.8, distinguisher 01, algorithm %d)", r.name, got.enc, want.KnasEnc, c.EncAlg)
-		case got.in != want.KnasInt:
-			return fail("knasint:"+r.name, "[%s] K_NASint %x, network derives %x (A.8, distinguisher 02, algorithm %d)", r.name, got.in, want.KnasInt, c.IntAlg)
+		var m []miss
+		if !bytes.Equal(got.res, want.ResStar) {
+			m = append(m, miss{"resstar", fmt.Sprintf("[%s] RES* %x, a conformant AUSF expects XRES* %x (TS 33.501 A.4)", r.name, got.res, want.ResStar)})
 		}
+		if !bytes.Equal(got.kamf, want.Kamf) {
+			m = append(m, miss{"kamf", fmt.Sprintf("[%s] K_AMF %x, network derives %x (K_AUSF→K_SEAF→K_AMF with SNN %q, SUPI %q, ABBA 0000)", r.name, got.kamf, want.Kamf, snnSpec, supiDigits)})
+		} else {
+			// the algorithm keys are only judged on their own when their parent key is right
+			if got.enc != want.KnasEnc {
+				m = append(m, miss{"knasenc", fmt.Sprintf("[%s] K_NASenc %x, network derives %x (A.8, distinguisher 01, algorithm %d)", r.name, got.enc, want.KnasEnc, c.EncAlg)})
+			}
+			if got.in != want.KnasInt {
+				m = append(m, miss{"knasint", fmt.Sprintf("[%s] K_NASint %x, network derives %x (A.8, distinguisher 02, algorithm %d)", r.name, got.in, want.KnasInt, c.IntAlg)})
+			}
+		}
+		misses = append(misses, m)
+	}
+	for i, m := range misses {
+		if len(m) == 0 {
+			continue
+		}
+		// root-cause key: the first wrong output; qualified by the configuration form only if the other form is right
+		key := m[0].key
+		if len(misses[1-i]) == 0 {
+			key += ":" + runs[i].name
+		}
+		text := m[0].text
+		for _, x := range m[1:] {
+			text += "; " + x.text
+		}
+		return fail(key, "%s", text)
 	}
 	// OP-only and OPc configurations give the same result (follows from both being equal to the reference; stated
 	// separately because the property states it separately)
